@@ -123,18 +123,23 @@ func ParseRedeem(data []byte, lockredeemAbi string) (req *RedeemRequest, err err
 	if err != nil {
 		return nil, err
 	}
-	ss := strings.Split(hex.EncodeToString(data), methodSignature)
-	if len(ss) == 0 {
-		return nil, errors.New("Transaction does not have the required input data")
-	}
-	if len(ss[1]) < 64 {
-		return nil, errors.New("Transaction data is invalid")
-	}
-	d, err := hex.DecodeString(ss[1][:64])
+	selector, err := hex.DecodeString(methodSignature)
 	if err != nil {
 		return nil, err
 	}
-	amt := big.NewInt(0).SetBytes(d)
+	tx, err := DecodeTransaction(data)
+	if err != nil {
+		return nil, err
+	}
+	// the call data of the transaction is the 4 byte selector followed by the 32 byte amount
+	input := tx.Data()
+	if !bytes.HasPrefix(input, selector) {
+		return nil, errors.New("Transaction does not have the required input data")
+	}
+	if len(input) < len(selector)+32 {
+		return nil, errors.New("Transaction data is invalid")
+	}
+	amt := big.NewInt(0).SetBytes(input[len(selector) : len(selector)+32])
 	return &RedeemRequest{Amount: amt}, nil
 }
 
